@@ -19,6 +19,104 @@ PQ = 'cocls::publisher::queue'
 REGPOS = 'cocls::publisher::queue::subreg_t::_pos'
 
 
+# ---- function objects of library classes handed to std algorithms --------------------------------------------------------------------------
+# The engine expands a lambda (and a closure class local to a function) that is passed to a std entry point which calls it at once
+# (std::for_each, std::find_if ...).  A maintainer may equally write the callable as a small *member* class of the queue with an
+# operator() (struct resume_awaiter { void operator()(awaiter *a) const { a->resume(); } };  std::for_each(b, e, resume_awaiter());).
+# The helpers below give the rules of this module the same view of such a function object: its call operator is expanded where the
+# algorithm is called (_FTracer), and it belongs to "the bodies behind f" (_bodies_behind).
+
+def _functor_ops(db, caller, arg):
+    """call operators (function instances) of the library class an argument of a std algorithm is an object of; [] when it is none"""
+    t = re.sub(r'\b(const|volatile|struct|class)\b', ' ', (arg or {}).get('type') or '').replace('&', ' ').strip()
+    t = re.sub(r'\s+', ' ', t)
+    if not t.startswith('cocls::') or (arg.get('opath') or arg.get('path') or '').startswith('lambda@'):
+        return []
+    fns = db.fns(norm(t) + '::operator()')
+    same = [f for f in fns if (f.get('class_inst') or '') == t]
+    return (same or fns)[:1]
+
+
+def _functor_calls(db, g):
+    """[(event, call operator)] for the std algorithm calls of body g that are handed a function object of a library class"""
+    from ..core import STD_IMMEDIATE
+    out = []
+    for e in g.events():
+        if e.k == 'call' and not e.get('callee_key'):
+            idx = STD_IMMEDIATE.get(norm(e.get('callee') or ''))
+            a = e.get('args') or []
+            if idx is not None and idx < len(a):
+                out += [(e, op) for op in _functor_ops(db, g, a[idx])]
+    return out
+
+
+class _FTracer(Tracer):
+    """the path enumerator of the engine, which additionally expands the call operator of a library function object handed to a std entry
+    point that invokes it immediately - exactly as it expands a lambda in that position.  Members of the function object read as
+    functor@<event>-><member>"""
+
+    def expand(self, caller, ee, d, stack):
+        from ..core import STD_IMMEDIATE
+        r = Tracer.expand(self, caller, ee, d, stack)
+        if r is not None or ee.k != 'call' or ee.get('callee_key') or d >= self.depth:
+            return r
+        idx = STD_IMMEDIATE.get(norm(ee.get('callee') or ''))
+        a = ee.get('args') or []
+        if idx is None or idx >= len(a):
+            return r
+        out = None
+        for op in _functor_ops(self.db, caller, a[idx]):
+            if any(fr[0] == op['key'] for fr in stack) or not self.inline_filter(caller, ee, op):
+                continue
+            p_ = a[idx].get('path') or ''
+            env = {'this': p_ if re.fullmatch(r'(local|param):\w+(#\d+)?', p_) else 'functor@%s' % ee.get('id')}
+            out = (out or []) + self.traces(op, d + 1, env, stack)
+        return out
+
+
+def _htracer(db, extra=None, exc=None, maxvisit=2, limit=20000, depth=4):
+    """rules.htracer (helpers of the class and local lambdas expanded in place) on the enumerator that also expands function objects"""
+    T = _FTracer(db, depth=depth, inline_filter=lambda caller, ev, callee: bool(extra and extra(caller, ev, callee)) or is_helper(db, caller, callee),
+                 exc_edges=exc, maxvisit=maxvisit, limit=limit)
+    T.closures_on_stack = True
+    return T
+
+
+def _traces_of(db, name, depth=0, per_instance=True, limit=20000, need=1, maxvisit=2):
+    """rules.traces_of (helper-expanded paths of every instance of `name`) on the enumerator that also expands function objects"""
+    per_instance = per_instance or THOROUGH[0]
+    T = _htracer(db, maxvisit=maxvisit, limit=limit, depth=max(depth, 4))
+    fns = db.fns(name)
+    if len(fns) < need:
+        raise Broken('anchor vanished: no instantiated body of %s' % name)
+    out = []; seen = set()
+    for f in fns:
+        if not per_instance:
+            if f['key'] in seen:
+                continue
+            seen.add(f['key'])
+        trs = T.traces(f)
+        if T.truncated:
+            raise Broken('path bound exceeded in %s' % name)
+        out.append((f, trs))
+    return out
+
+
+def _bodies_behind(db, f):
+    """f, the helpers of its class it reaches, the closures defined in any of them, and the call operators of library function objects they
+    hand to std algorithms: all the code a maintainer may have moved statements of f into"""
+    out = list(helper_bodies(db, f)); seen = {(g['key'], g.get('inst')) for g in out}
+    i = 0
+    while i < len(out) and i < 200:
+        g = out[i]; i += 1
+        more = [lf for e in g.events() if e.k == 'lambda' for lf in db.closure_instances(g, e['fn_key'])] + [op for _e, op in _functor_calls(db, g)]
+        for h in more:
+            for h2 in ([h] if (h['key'], h.get('inst')) in seen else helper_bodies(db, h)):
+                if (h2['key'], h2.get('inst')) not in seen:
+                    seen.add((h2['key'], h2.get('inst'))); out.append(h2)
+    return out
+
+
 def run(ctx, db, tier):
     advance_before_read(ctx, db)
     window_agreement(ctx, db)
@@ -41,7 +139,7 @@ def advance_before_read(ctx, db):
                    'position or is on the kicked edge (where get_value_lk reports end without consulting the position); a path of advance_suspend_lk returning true stored the '
                    'awaiter after advancing. A verdict returned through a non-constant expression is treated as the stricter one', floor=2)
     for name, goread in (('cocls::publisher::queue::advance_lk', 1), ('cocls::publisher::queue::advance_suspend_lk', 0)):
-        for f, trs in traces_of(db, name, depth=0, per_instance=False):
+        for f, trs in _traces_of(db, name, depth=0, per_instance=False):
             trs = [t for t in trs if live(t)]
             ctx.paths(rid, len(trs))
             bad = None; n = 0
@@ -52,6 +150,8 @@ def advance_before_read(ctx, db):
                 rv = ret[-1].get('const')
                 if rv is None and ret_bool(tr) is not None:
                     rv = int(ret_bool(tr))      # return flag;  with the flag branched on earlier on this path
+                if rv is None and _ret_flag(tr) is not None:
+                    rv = int(_ret_flag(tr))     # bool flag = false; ... if (a) if (!c) { ...; flag = true; } return flag;  - what was last stored in the flag on this path
                 wrote = [i for i, it in enumerate(tr) if it.k == 'write' and field_of(it) == REGPOS]
                 kicked = any(it.k == 'branch' and re.search(r'\._kicked\b', it.path or '') and it.val for it in tr)
                 park = [i for i, it in enumerate(tr) if it.k == 'write' and (it.get('path') or '').endswith('._awt') and it.get('rhs') not in ('nullptr',)]
@@ -75,7 +175,7 @@ def advance_before_read(ctx, db):
             ctx.ob(rid, f, f['key'], bad is None, '%s: position advanced on every go-and-read path' % name.split('::')[-1] + ('' if not bad else ' -- ' + bad[0]), desc=bad[0] if bad else None,
                    trace=fmt_trace(bad[1]) if bad and bad[1] else None)
     # every advance moves forward: the new position is provably greater than the old one (++, += c, or max(old + c, ...) with c >= 1)
-    for f, trs in traces_of(db, 'cocls::publisher::queue::advance_lk', depth=0, per_instance=False):
+    for f, trs in _traces_of(db, 'cocls::publisher::queue::advance_lk', depth=0, per_instance=False):
         bad = None; nw = 0
         for tr in trs:
             if not live(tr):
@@ -122,7 +222,7 @@ def advance_before_read(ctx, db):
             raise Broken('advance_lk never writes the position: anchor changed')
         ctx.ob(rid, f, f['key'], bad is None, 'every advance moves the position strictly forward', desc='advance_lk sets a position that is not provably ahead of the old one', trace=fmt_trace(bad[1]) if bad else None)
     # advance_lk "not ready" must not change the position
-    for f, trs in traces_of(db, 'cocls::publisher::queue::advance_lk', depth=0, per_instance=False):
+    for f, trs in _traces_of(db, 'cocls::publisher::queue::advance_lk', depth=0, per_instance=False):
         bad = None
         for tr in trs:
             if not live(tr):
@@ -134,10 +234,128 @@ def advance_before_read(ctx, db):
                trace=fmt_trace(bad) if bad else None)
 
 
+def _ret_flag(tr):
+    """truth value the root function returns through a flag local (bool must_wait = false; ... must_wait = true; ... return must_wait;): the
+    value last stored in the local on this path - a constant, or an expression the branches of the path decide.  None when not decided"""
+    from ..core import eval_logic
+    d0 = min((it.get('depth', 0) for it in tr if it.k not in ('enter', 'leave', 'abort')), default=0)
+    r = next((i for i in range(len(tr) - 1, -1, -1) if tr[i].k == 'return' and tr[i].get('depth', 0) == d0), None)
+    if r is None:
+        return None
+    p = ret_expr(tr) if tr[r].get('ret_ev') is not None else tr[r].get('path')
+    p = p or ''; neg = False; upto = r
+    for _ in range(6):
+        while p.startswith('!(') and p.endswith(')'):
+            p = p[2:-1]; neg = not neg
+        if re.fullmatch(r'!(local:\w+(#\d+)?)', p):
+            p = p[1:]; neg = not neg
+        if not re.fullmatch(r'local:\w+(#\d+)?', p):
+            break
+        j = next((j for j in range(upto - 1, -1, -1) if (tr[j].k == 'decl' and tr[j].get('var') == p) or (tr[j].k == 'write' and tr[j].get('path') == p)), None)
+        if j is None:
+            return None
+        st = tr[j]
+        if st.k == 'write' and (st.get('op') or '=') != '=':
+            return None
+        if isinstance(st.get('const'), (int, bool)):
+            return bool(st['const']) != neg
+        p = (st.get('init') if st.k == 'decl' else st.get('rhs')) or ''
+        upto = j
+    if not p:
+        return None
+    known = {}
+    for it in tr[:upto]:
+        if it.k == 'branch':
+            for k_, v_ in (it.get('forms') or {}).items():
+                known[k_] = bool(v_)
+            if it.get('opath'):
+                known[it['opath']] = bool(it.get('oval', it.val))
+            if it.get('path'):
+                known[it['path']] = bool(it.val)
+    try:
+        v = eval_logic(deep_resolve_select(p, tr[:upto]), known)
+    except Exception:
+        return None
+    return (v[1] != neg) if v and v[0] == 'const' else None
+
+
 def _canon(a):
     a = re.sub(r'^((local|param):\w+(#\d+)?|this->_regs\[\]|\*\((local:\w+(#\d+)?|call\(std::vector::begin\))\))(\.|->)_pos$', 'REG._pos', a)
     a = re.sub(r'^this->_pos$', 'POS', a)
     return a
+
+
+_NEG_REL = {'<': '>=', '<=': '>', '>': '<=', '>=': '<', '==': '!=', '!=': '=='}
+_SWAP_REL = {'<': '>', '<=': '>=', '>': '<', '>=': '<=', '==': '==', '!=': '!='}
+
+
+def _branch_rel(it):
+    """(lhs, op, rhs) that HOLDS on the edge a branch item took, when the branch tests a relational expression (a negation in front of it
+    and the false edge flip the operator); None otherwise"""
+    if it.k != 'branch':
+        return None
+    for p_, v_ in [(it.get('path'), it.val)] + list((it.get('forms') or {}).items()) + [(it.get('opath'), it.get('oval', it.val))]:
+        p_ = p_ or ''; v_ = bool(v_)
+        while p_.startswith('!(') and p_.endswith(')'):
+            p_ = p_[2:-1]; v_ = not v_
+        sc = split_cmp(p_ if p_.startswith('(') else '(%s)' % p_)
+        if sc and sc[1] in _NEG_REL:
+            return (sc[0], sc[1] if v_ else _NEG_REL[sc[1]], sc[2])
+    return None
+
+
+def _window_entries(tr):
+    """positions of one trace at which the distance of a registration, (_pos - reg._pos) + k, has entered the running maximum that becomes
+    the retained length: [(index, linear form of the distance)].  Two spellings of "acc = max(acc, d)":
+      * a call of std::max one of whose arguments is the distance (directly or through a local that names it);
+      * compare-and-assign on an accumulator local: a branch that compares the accumulator with the distance - on the edge where the
+        accumulator is already >= the distance nothing has to happen, on the edge where it is smaller (or not greater) the distance must be
+        stored in the accumulator before the walk moves on (if (acc < d) acc = d;  acc = acc < d ? d : acc;)"""
+    out = []; env = {}
+    def lf(p_):
+        try:
+            l_ = linform(p_ or '', _canon)
+        except ValueError:
+            return None
+        return _lsub(l_, env) if l_ is not None else None
+    def is_dist(l_):
+        return bool(l_) and l_.get('POS') == 1 and l_.get('REG._pos') == -1 and set(l_) <= {'POS', 'REG._pos', ''}
+    pending = None
+    for i, it in enumerate(tr):
+        if it.k == 'decl' and it.get('init') is not None and re.fullmatch(r'local:\w+(#\d+)?', it.get('var') or '') and not it.get('ref'):
+            env[it['var']] = lf(resolve_select(it['init'], tr[:i]))
+        elif it.k == 'call' and norm(it.get('callee')) == 'std::max':
+            for a in it.get('args', []):
+                l_ = lf(a.get('path'))
+                if is_dist(l_):
+                    out.append((i, l_))
+        elif it.k == 'branch' and (it.term in ('ForStmt', 'CXXForRangeStmt', 'WhileStmt', 'DoStmt') or re.search(r'(\.|->)_used$', it.path or '')):
+            pending = None
+        elif it.k == 'branch':
+            rel = _branch_rel(it)
+            if rel:
+                a_, op_, b_ = rel
+                if re.fullmatch(r'local:\w+(#\d+)?', b_) and not is_dist(lf(b_)):
+                    a_, op_, b_ = b_, _SWAP_REL[op_], a_
+                l_ = lf(b_)
+                if re.fullmatch(r'local:\w+(#\d+)?', a_) and is_dist(l_) and not is_dist(lf(a_)):
+                    if op_ in ('>=', '>', '=='):
+                        out.append((i, l_))             # the accumulator already covers this registration
+                    elif op_ in ('<', '<='):
+                        pending = (a_, l_)
+        elif it.k == 'write' and re.fullmatch(r'local:\w+(#\d+)?', it.get('path') or ''):
+            v_ = it['path']
+            if (it.get('op') or '=') == '=':
+                l_ = lf(resolve_select(it.get('rhs') or '', tr[:i]))
+                acc_ = bool(pending and pending[0] == v_)
+                if acc_ and l_ is not None and l_ == pending[1]:
+                    out.append((i, l_))
+                pending = None if acc_ else pending
+                # (the accumulator stays opaque: in the next round of the walk it is compared with the distance of another registration)
+                env[v_] = None if acc_ or v_ in (it.get('rhs') or '') else l_
+            else:
+                env[v_] = None
+    return out
 
 
 def window_agreement(ctx, db):
@@ -150,16 +368,12 @@ def window_agreement(ctx, db):
             return linform(p or '', _canon)
         except ValueError:
             return None
-    H = htracer(db)
+    H = _htracer(db)
     for f in db.need('cocls::publisher::queue::push_lk')[:1]:
         wf = f
         for tr in H.traces(f):
-            for e in tr:
-                if e.k == 'call' and norm(e.get('callee')) == 'std::max':
-                    for a in e.get('args', []):
-                        lf_ = _lf(a.get('path'))
-                        if lf_ and lf_.get('POS') == 1 and lf_.get('REG._pos') == -1:
-                            w = lf_
+            for _i, lf_ in _window_entries(tr):
+                w = lf_ if w is None or w == 'conflict' or lf_ == w else 'conflict'
     # ... for EVERY used registration: a parked subscriber stands on the position of the value it waits for and reads it from the window
     # when it is woken - leaving it out of the maximum trims away the values of the very publish that wakes it
     skipped = None
@@ -168,8 +382,11 @@ def window_agreement(ctx, db):
         for g in bodies_:
             for tr in H.traces(g):
                 used = False
-                for it in tr:
-                    if it.k == 'branch' and re.search(r'(\.|->)_used$', it.path or ''):
+                entered = {i_ for i_, _l in _window_entries(tr)}
+                for n_, it in enumerate(tr):
+                    if n_ in entered:
+                        used = False
+                    elif it.k == 'branch' and re.search(r'(\.|->)_used$', it.path or ''):
                         if used and skipped is None:
                             skipped = tr
                         used = bool(it.val)
@@ -195,11 +412,37 @@ def window_agreement(ctx, db):
                         r = lf_ if r is None or r == 'conflict' or lf_.get('', 0) == r.get('', 0) else 'conflict'
     if w is None or r is None:
         raise Broken('retained-window expression (push_lk: %s) or index expression (get_value_lk: %s) not recognised as _pos - reg._pos + k' % (w, r))
-    ok = r != 'conflict' and (w.get('', 0) - r.get('', 0) == 1)
-    ctx.ob(rid, wf, wf['key'], ok, 'retained length is (_pos - reg._pos) %+d, index read is (_pos - reg._pos) %+d' % (w.get('', 0), (r.get('', 0) if r != 'conflict' else 99)),
+    ok = r != 'conflict' and w != 'conflict' and (w.get('', 0) - r.get('', 0) == 1)
+    ctx.ob(rid, wf, wf['key'], ok, 'retained length is (_pos - reg._pos) %+d, index read is (_pos - reg._pos) %+d' % ((w.get('', 0) if w != 'conflict' else 99), (r.get('', 0) if r != 'conflict' else 99)),
            desc='retained window and read index disagree')
     # the reader's bound check uses that index against the deque size
     bound = any(b.get('cond') and re.search(r'relpos|_pos', (b['cond'].get('path') or '')) and 'size' in (b['cond'].get('path') or '') for b in rf['blocks'])
+    if not bound:
+        # the comparison may be named first (const bool behind = relpos >= _q.size(); ... if (behind)) or sit in a helper of the class that serves
+        # one access style: a branch of the helper-expanded paths, in any of the spellings it went through, that relates the index
+        # (_pos - reg._pos + k, directly or through the local that names it) to the size of the window
+        for tr in H.traces(rf):
+            env = {}
+            for i, it in enumerate(tr):
+                if it.k == 'decl' and it.get('init') is not None and re.fullmatch(r'local:\w+(#\d+)?', it.get('var') or '') and not it.get('ref'):
+                    l_ = _lf(inline_returns(tr, i, it['init']))
+                    env[it['var']] = _lsub(l_, env) if l_ is not None else None
+                elif it.k == 'write' and re.fullmatch(r'local:\w+(#\d+)?', it.get('path') or ''):
+                    l_ = _lf(it.get('rhs')) if (it.get('op') or '=') == '=' else None
+                    env[it['path']] = _lsub(l_, env) if l_ is not None else None
+                elif it.k == 'branch':
+                    for p_ in [it.get('path'), it.get('opath')] + list(it.get('forms') or {}):
+                        p_ = p_ or ''
+                        while p_.startswith('!(') and p_.endswith(')'):
+                            p_ = p_[2:-1]
+                        sc = split_cmp(p_ if p_.startswith('(') else '(%s)' % p_)
+                        if not sc or sc[1] not in ('<', '<=', '>', '>='):
+                            continue
+                        for a_, b_ in ((sc[0], sc[2]), (sc[2], sc[0])):
+                            la = _lf(a_)
+                            la = _lsub(la, env) if la is not None else None
+                            if la and la.get('POS') == 1 and la.get('REG._pos') == -1 and re.search(r'call\(std::deque::size\)', b_):
+                                bound = True
     ctx.ob(rid, rf, rf['key'], bound, 'get_value_lk compares its index with the retained size before indexing', desc='get_value_lk indexes the window without a bound test')
 
 
@@ -214,7 +457,7 @@ def slot_reinit(ctx, db):
     if not fns:
         raise Broken('anchor vanished: subscribe_lk(sub, pos)')
     f = fns[0]
-    T = htracer(db)
+    T = _htracer(db)
     trs = [t for t in T.traces(f) if live(t)]
     ctx.paths(rid, len(trs))
     bad = None; nre = nfresh = 0
@@ -227,6 +470,16 @@ def slot_reinit(ctx, db):
         written = {m.group(1) for it in tr if it.k == 'write' for m in [re.search(r'\.(\w+)$', it.get('path') or '')] if m and norm(it.get('field') or it.get('lfield') or '').startswith('cocls::publisher::queue::subreg_t') or (it.k == 'write' and m and re.match(r'local:\w+\.', it.get('path') or ''))}
         if any(it.k == 'call' and norm(it.get('callee') or '') == 'cocls::publisher::queue::subreg_t::operator=' and not re.search(r'\[\]$|^\*|^local:\w+$', (it.get('args') or [{}])[0].get('path') or 'x') for it in tr):
             written = set(fields)      # the whole record is assigned from a freshly built one (l = subreg_t{...})
+        for n_, it in enumerate(tr):
+            # ... or from a local record that was built from scratch on this path (const subreg_t fresh{pos, sub, nullptr, true, false}; ... l = fresh;):
+            # an aggregate initialisation gives every member a value (the listed one, or zero); a copy of an existing slot does not count
+            if it.k == 'call' and norm(it.get('callee') or '') == 'cocls::publisher::queue::subreg_t::operator=':
+                a0_ = (it.get('args') or [{}])[0].get('path') or ''
+                if re.fullmatch(r'local:\w+(#\d+)?', a0_):
+                    d_ = next((x for x in reversed(tr[:n_]) if x.k == 'decl' and x.get('var') == a0_), None)
+                    if d_ is not None and d_.get('init') == '{...}' and not d_.get('ref') and not d_.get('ptr') and 'subreg_t' in (d_.get('type') or '') and \
+                            not any(x.k == 'call' and x.get('recv') == a0_ and norm(x.get('callee') or '').endswith('::operator=') for x in tr[:n_]):
+                        written = set(fields)
         missing = fields - written
         if missing:
             bad = bad or ('the recycled slot keeps its old %s' % ', '.join(sorted(missing)), tr)
@@ -238,7 +491,7 @@ def slot_reinit(ctx, db):
 def wake_outside_lock(ctx, db):
     rid = ctx.rule('C16.wake-outside-lock', 'LOCKSET', 'push_lk and kick_lk (helpers of the class expanded in place) resume parked awaiters (user code) only after lk.unlock(); push_lk re-locks '
                    'before it touches the wake-up buffer again', floor=2)
-    H = htracer(db, maxvisit=2)
+    H = _htracer(db, maxvisit=2)
     WB = 'cocls::publisher::queue::_wakeup_buffer'
     for name in ('cocls::publisher::queue::push_lk', 'cocls::publisher::queue::kick_lk'):
         for f in db.need(name)[:1]:
@@ -277,35 +530,51 @@ def wake_outside_lock(ctx, db):
                     ctx.ob(rid, f, loc, ok, 'the wake-up buffer is touched under the lock', desc='_wakeup_buffer touched without the lock in ' + name)
 
 
+def _flag_store(it, field):
+    """the constant a trace item stores into the member `field` (declaration name): a plain assignment, or std::exchange(field, c) whose
+    result is the old value; 'x' for a store of something that is not a constant; None when the item does not store into the field"""
+    if it.k == 'write' and field_of(it) == field:
+        return it.get('const') if it.get('const') is not None and (it.get('op') or '=') == '=' else 'x'
+    if it.k == 'call' and norm(it.get('callee') or '') == 'std::exchange':
+        a = it.get('args') or []
+        if len(a) == 2 and norm(a[0].get('field') or '') == field:
+            return a[1].get('const') if a[1].get('const') is not None else 'x'
+    return None
+
+
 def close_wakes_all(ctx, db):
     rid = ctx.rule('C16.close-wakes-all', 'COUNT', 'close() sets the closed flag and reaches push_lk exactly on the not-yet-closed edge; push_lk walks all registrations without early exit, '
                    'collects and clears the parked awaiter of every used one, and resumes every collected awaiter; kick_lk marks the registration kicked, takes its awaiter and '
                    'resumes it on the non-null edge; every publish overload, close and ~publisher go through push_lk / close', floor=5)
-    for f, trs in traces_of(db, 'cocls::publisher::queue::close', depth=0, per_instance=False):
+    for f, trs in _traces_of(db, 'cocls::publisher::queue::close', depth=0, per_instance=False):
         trs = [t for t in trs if live(t)]
         ctx.paths(rid, len(trs))
         bad = None; n = 0
         for tr in trs:
             closed = None
-            for it in tr:
+            for i_, it in enumerate(tr):
                 if it.k == 'branch' and (it.path or '') == 'this->_closed':
                     closed = bool(it.val)
-            w = [it for it in tr if it.k == 'write' and field_of(it) == 'cocls::publisher::queue::_closed']
+                elif it.k == 'branch' and it.get('depth', 0) == 0 and re.fullmatch(r'call\(std::exchange\)|local:\w+', it.path or '') and origin_in_trace(tr, i_, it.path)[0] == 'this->_closed':
+                    # if (std::exchange(_closed, true)) return;  - the value the flag had before the store is what is tested
+                    closed = bool(it.val)
+            w = [it for it in tr if _flag_store(it, 'cocls::publisher::queue::_closed') is not None]
             p = [c for c in calls(tr) if norm(c.get('callee')) == 'cocls::publisher::queue::push_lk']
             if closed is True:
-                if w or p:
+                # (storing true into a flag that was found true changes nothing)
+                if [x for x in w if _flag_store(x, 'cocls::publisher::queue::_closed') != 1] or p:
                     bad = bad or ('a second close does something', tr)
             else:
                 n += 1
-                if len(w) != 1 or w[0].get('const') != 1 or len(p) != 1:
+                if len(w) != 1 or _flag_store(w[0], 'cocls::publisher::queue::_closed') != 1 or len(p) != 1:
                     bad = bad or ('close does not set the flag and wake the subscribers exactly once', tr)
-                elif tr.index(w[0]) > tr.index(p[0]):
+                elif pos(tr, w[0]) > pos(tr, p[0]):
                     bad = bad or ('the closed flag is set after the wake-up pass: push_lk releases the lock while it resumes, a subscriber that comes to wait in that window still sees "open", parks and is never woken', tr)
         if n == 0 and not bad:
             bad = ('close never closes', [])
         ctx.ob(rid, f, f['key'], bad is None, 'close: flag + push_lk once' + ('' if not bad else ' -- ' + bad[0]), desc=bad[0] if bad else None)
     for f in db.need('cocls::publisher::queue::push_lk')[:1]:
-        T = Tracer(db, depth=0, maxvisit=2)
+        T = _htracer(db, maxvisit=2)      # the collect loop may have been moved into a helper of the class: judged on the helper-expanded paths
         trs = [t for t in T.traces(f) if live(t)]
         ctx.paths(rid, len(trs))
         bad = None
@@ -315,6 +584,10 @@ def close_wakes_all(ctx, db):
             for lf_ in lambdas_of(db, g_['nname']):
                 if lf_['key'] not in {b_['key'] for b_ in bodies}:
                     bodies.append(lf_)
+        # ... and so does the call operator of a function object of the class handed to std::for_each
+        for g_ in _bodies_behind(db, f):
+            if g_['key'] not in {b_['key'] for b_ in bodies}:
+                bodies.append(g_)
         evl = [e for g in bodies for e in g.events()]
         if any(b.get('term') in ('BreakStmt',) for g in bodies for b in g['blocks']) or any(b.get('term') == 'ReturnStmt' for b in f['blocks']):
             bad = ('the walk over the registrations can exit early', [])
@@ -334,7 +607,7 @@ def close_wakes_all(ctx, db):
         if len(rs) != 1:
             bad = bad or ('collected awaiters are not resumed by exactly one resume site in a loop', [])
         ctx.ob(rid, f, f['key'], bad is None, 'push_lk: collect+clear every parked awaiter, resume all' + ('' if not bad else ' -- ' + bad[0]), desc=bad[0] if bad else None)
-    for f, trs in traces_of(db, 'cocls::publisher::queue::kick_lk', depth=0, per_instance=False):
+    for f, trs in _traces_of(db, 'cocls::publisher::queue::kick_lk', depth=0, per_instance=False):
         trs = [t for t in trs if live(t)]
         ctx.paths(rid, len(trs))
         bad = None; n = 0
@@ -371,7 +644,7 @@ def close_wakes_all(ctx, db):
     for name in ('cocls::publisher::~publisher', 'cocls::publisher::close'):
         for f in db.need(name)[:1]:
             # directly or through a helper of the class (~publisher may call publisher::close): exactly once on every path
-            trs_ = [t for t in htracer(db).traces(f) if live(t)]
+            trs_ = [t for t in _htracer(db).traces(f) if live(t)]
             ok = bool(trs_) and all(sum(1 for c in calls(t) if norm(c.get('callee')) == 'cocls::publisher::queue::close') == 1 for t in trs_)
             ctx.ob(rid, f, f['key'], ok, '%s closes the queue' % name.split('::')[-1], desc='%s does not close the queue' % name)
 
@@ -384,7 +657,7 @@ def subscriber_protocol(ctx, db):
     for name, callee in spec:
         for f in db.need(name)[:1]:
             # on every path exactly one call, whose first argument is the subscriber's handle (directly or through a by-value local copy of it)
-            trs_ = [t for t in htracer(db).traces(f) if live(t)]
+            trs_ = [t for t in _htracer(db).traces(f) if live(t)]
             ok = bool(trs_)
             for tr in trs_:
                 ci = all_indices(tr, callee_is(callee))
@@ -397,7 +670,7 @@ def subscriber_protocol(ctx, db):
 def end_of_stream(ctx, db):
     rid = ctx.rule('C16.end-of-stream', 'PATHS', 'get_value_lk reports end-of-stream (empty optional) on every path where the registration is kicked or has caught up with the stream position, '
                    'and only a path that excluded both may index the retained window', floor=1)
-    T = Tracer(db, depth=0)
+    T = _htracer(db)      # the access styles may be served by helpers of the class (value_all_lk ...): the outcomes are those of the helper-expanded paths
     for f in db.need('cocls::publisher::queue::get_value_lk')[:1]:
         bad = None; nend = nval = 0
         for tr in [t for t in T.traces(f) if live(t)]:
@@ -409,7 +682,8 @@ def end_of_stream(ctx, db):
                     caught = bool(it.val)
             idx = [it for it in tr if it.k == 'call' and norm(it.get('field') or '') == 'cocls::publisher::queue::_q' and norm(it.get('callee') or '').endswith('operator[]')]
             ret = [it for it in tr if it.k == 'return']
-            empty = bool(ret) and (ret[-1].get('path') in ('{}', 'ctor()', '<InitListExpr>') or 'nullopt' in (ret[-1].get('path') or ''))
+            rp_ = (ret_expr(tr) or ret[-1].get('path') or '') if ret else ''        # what a helper returned on this path is what get_value_lk returns
+            empty = bool(ret) and (rp_ in ('{}', 'ctor()', '<InitListExpr>') or 'nullopt' in rp_)
             if kicked is True or caught is True:
                 nend += 1
                 if idx or not empty:
@@ -480,7 +754,7 @@ def delivered_matches_position(ctx, db):
     index or takes the newest element must move reg._pos with it, otherwise the next advance steps onto the very element just delivered"""
     rid = ctx.rule('C16.delivered-matches-position', 'LINEAR (symbolic evaluation per path)', 'get_value_lk: on every path that returns an element _q[i], i equals _pos - reg._pos - 1 with reg._pos as that '
                    'path leaves it (assignments to locals and to reg._pos are evaluated symbolically over _pos, reg._pos, _q.size()): the subscriber continues from the value it was given', floor=1)
-    for f, trs in traces_of(db, 'cocls::publisher::queue::get_value_lk', per_instance=False):
+    for f, trs in _traces_of(db, 'cocls::publisher::queue::get_value_lk', per_instance=False):
         trs = [t for t in trs if live(t)]
         ctx.paths(rid, len(trs))
         sites = {}; newest = []
@@ -540,7 +814,7 @@ def copy_continues(ctx, db):
                    'source has no parked awaiter and _pos - 1 on the edge where it has one (advance_suspend_lk parks only after stepping onto the awaited position)', floor=1)
     # derive the representation of "parked" from advance_suspend_lk itself: the position is incremented on the path that stores the awaiter
     parked_ahead = None
-    for f, trs in traces_of(db, 'cocls::publisher::queue::advance_suspend_lk', per_instance=False):
+    for f, trs in _traces_of(db, 'cocls::publisher::queue::advance_suspend_lk', per_instance=False):
         for tr in trs:
             st = [i for i, it in enumerate(tr) if it.k == 'write' and (it.get('path') or '').endswith('_awt')]
             if st:
@@ -553,28 +827,35 @@ def copy_continues(ctx, db):
     if not fns:
         raise Broken('anchor vanished: subscribe_lk(handle, subscriber)')
     f = fns[0]
-    T = Tracer(db, depth=0)
+    T = _htracer(db)      # the start position may be computed by a helper of the class (copy_start_pos_lk(h)): its test and its result are on the expanded path
     trs = [t for t in T.traces(f) if live(t)]
     ctx.paths(rid, len(trs))
     bad = None; n = 0
     for tr in trs:
-        parked = None
-        for it in tr:
-            if it.k == 'branch':
-                nn = nullness(it)
-                if nn and nn[0].endswith('_awt'):
-                    parked = nn[1]
         for c in calls(tr):
             if norm(c.get('callee') or '') == 'cocls::publisher::queue::subscribe_lk' and len(c.get('args') or []) == 2:
                 n += 1
-                p = _resolve_select(c['args'][1].get('path') or '', tr[:pos(tr, c)])
+                parked = None
+                for it in tr[:pos(tr, c)]:
+                    if it.k == 'branch':
+                        nn = nullness(it)
+                        if nn and nn[0].endswith('_awt'):
+                            parked = nn[1]
+                p = _resolve_select(inline_returns(tr, pos(tr, c), c['args'][1].get('path') or ''), tr[:pos(tr, c)])
                 env = {}
                 for it in tr[:pos(tr, c)]:
                     if it.k == 'decl' and it.get('init') is not None and re.fullmatch(r'local:\w+', it.get('var') or '') and not it.get('ref'):
                         env[it['var']] = _lin(_resolve_select(it['init'], tr[:pos(tr, it)]), env)
                     elif it.k == 'write' and re.fullmatch(r'local:\w+', it.get('path') or ''):
                         # std::size_t start; if (parked) start = ...; else start = ...;
-                        env[it['path']] = _lin(_resolve_select(it.get('rhs') or '', tr[:pos(tr, it)]), env) if (it.get('op') or '=') == '=' else None
+                        if (it.get('op') or '=') == '=':
+                            env[it['path']] = _lin(_resolve_select(it.get('rhs') or '', tr[:pos(tr, it)]), env)
+                        elif delta_of_write(it) is not None and env.get(it['path']) is not None:
+                            # std::size_t start = src._pos; if (src._awt) --start;
+                            env[it['path']] = dict(env[it['path']]); env[it['path']][''] = env[it['path']].get('', 0) + delta_of_write(it)
+                            env[it['path']] = {k_: v_ for k_, v_ in env[it['path']].items() if v_}
+                        else:
+                            env[it['path']] = None
                 lin = _lin(p, env)
                 if not parked_ahead or parked is False:
                     want = {'REG': 1}
@@ -656,7 +937,7 @@ def wake_means_news(ctx, db):
     there" as the end of the stream.  So the wake-up pass runs with a count of zero only for close()"""
     rid = ctx.rule('C16.wake-means-news', 'GUARDED', 'every call of push_lk(lk, n) in the publisher queue: n is a positive constant, or tested non-zero on that path, or the closed flag was set before '
                    '(close): an empty publish (empty range) does not wake anybody', floor=3)
-    T = htracer(db, extra=lambda c, e, callee: False)
+    T = _htracer(db, extra=lambda c, e, callee: False)
     seen = set(); sites = {}
     for f in db.all_instances():
         if not f['nname'].startswith(PQ + '::') or f['key'] in seen or f['nname'].endswith('::push_lk'):
@@ -679,13 +960,25 @@ def wake_means_news(ctx, db):
                     m = re.fullmatch(r'\((.+) == 0\)', it.path or '')
                     if m and not it.val:
                         nz.add(m.group(1))
-                elif it.k == 'write' and field_of(it) == PQ + '::_closed' and it.get('const') == 1:
+                    # if (a == b) return; push_lk(lk, a - b);   a != b  /  a > b  on unsigned values: the difference is not zero
+                    for p_, v_ in ((it.get('path'), it.val), (it.get('opath'), it.get('oval', it.val))):
+                        rel = _branch_rel(Item(it, path=p_, val=v_, forms=None, opath=None)) if p_ else None
+                        if rel and rel[0] not in ('0', 'nullptr') and rel[2] not in ('0', 'nullptr'):
+                            if rel[1] in ('!=', '>'):
+                                nz.add('(%s - %s)' % (rel[0], rel[2]))
+                            if rel[1] in ('!=', '<'):
+                                nz.add('(%s - %s)' % (rel[2], rel[0]))
+                elif it.k == 'call' and norm(it.get('field') or '') == PQ + '::_q' and it.get('recv') and \
+                        norm(it.get('callee') or '').split('::')[-1] not in ('size', 'empty', 'begin', 'end', 'cbegin', 'cend', 'operator[]', 'at', 'front', 'back', 'max_size'):
+                    # the window changed: what was known about its size is no longer known
+                    nz = {x for x in nz if 'call(std::deque::' not in x}
+                elif _flag_store(it, PQ + '::_closed') == 1:
                     closed = True
                 elif it.k == 'call' and norm(it.get('callee')) == PQ + '::push_lk' and it.get('depth', 0) == 0:
                     a = (it.get('args') or [{}, {}])
                     a1 = a[1] if len(a) > 1 else {}
                     c = a1.get('const'); p_ = a1.get('path') or ''
-                    ok = (c is not None and c >= 1) or (c == 0 and closed) or (c is None and (p_ in nz or origin_in_trace(tr, i, p_)[0] in nz or closed))
+                    ok = (c is not None and c >= 1) or (c == 0 and closed) or (c is None and (p_ in nz or (a1.get('opath') or p_) in nz or origin_in_trace(tr, i, p_)[0] in nz or closed))
                     key = (f['key'], it.get('loc'))
                     sites.setdefault(key, [f, True, p_, None])
                     if not ok and sites[key][1]:
@@ -703,11 +996,12 @@ def kick_finds_live(ctx, db):
     very address and get another slot.  Whoever looks a subscriber up by address must consider live slots only"""
     rid = ctx.rule('C16.kick-finds-live-registration', 'GUARDED', 'kick_lk (its search predicate or loop): the comparison of a registration\'s subscriber address with the one to kick is evaluated only '
                    'for a registration already tested _used on that path: a stale address in a released slot never shadows the live registration', floor=1)
-    T = htracer(db)
+    T = _htracer(db)
     bodies = []
     for f in db.need(PQ + '::kick_lk')[:1]:
         bodies = [f] + [g for g in helper_bodies(db, f) if g['nname'] != PQ + '::push_lk'] + list(lambdas_of(db, PQ + '::kick_lk'))
         bodies += [lf for g in list(bodies) for e in g.events() if e.k == 'lambda' for lf in db.closure_instances(g, e['fn_key'])]       # the predicate may live in a helper (take_kicked_lk)
+        bodies += [op for g in list(bodies) for _e, op in _functor_calls(db, g)]        # ... or be the call operator of a function object of the class handed to std::find_if
     seen = set(); n = 0
     for g in bodies:
         if g['key'] in seen:
